@@ -260,11 +260,80 @@ def h_eliminable_counting_real(eng):
     eng.prove("elimreal.substituted_symbols_are_no_longer_unknowns", z3.BoolVal(all(not any(g is u for u in unknown_syms) for exprs, vars_, vals in log.calls for g in vars_)))
 
 
+# ------------------------------------------------------------------------------------------------ the four replace_* blocks
+class PV(E):
+    """a parameter / constant value: a regular number, NaN (unspecified) or an expression over other parameters"""
+
+    def __init__(self, kind):
+        E.__init__(self, "const" if kind in ("number", "nan") else "opaque", value=z3.RealVal(1))
+        self.pkind = kind
+
+    def sym_getattr(self, eng, name):
+        if name == "is_regular":
+            return stub(lambda eng: self.pkind == "number")
+        if name == "is_constant":
+            return stub(lambda eng: self.pkind in ("number", "nan"))
+        return E.sym_getattr(self, eng, name)
+
+
+REPLACE_OPTIONS = ["replace_parameter_expressions", "replace_constant_expressions", "replace_parameter_values", "replace_constant_values"]
+
+
+def h_replace_blocks(eng):
+    """Each replace_* step removes parameters / constants from the model's lists: every removed symbol must be substituted in the
+    equations, the initial equations, the DELAY ARGUMENTS and the metadata, or an output function can no longer be built."""
+    log = SubstLog()
+    M.install(eng, {"substitute": log.stub(), "is_equal": stub(lambda eng, *a: True), "veccat": stub(lambda eng, *a: E("opaque", value=z3.RealVal(0)))})
+    opt = REPLACE_OPTIONS[eng.choice(len(REPLACE_OPTIONS))]
+    eng.input("option", opt)
+
+    def var(name, kind):
+        v = variable(name)
+        v.fields["value"] = PV(kind)
+        v.fields["aliases"] = VSet([])
+        return v
+    params = [var("p_num", "number"), var("p_expr", "expr"), var("p_nan", "nan")]
+    consts = [var("c_num", "number"), var("c_expr", "expr")]
+    eqs, ieqs = VList([E("opaque", value=z3.RealVal(1))]), VList([E("opaque", value=z3.RealVal(2))])
+    delay_log, meta_log = [], []
+    model = VObj(VClass("Model"), {"parameters": VList(list(params)), "constants": VList(list(consts)), "equations": eqs, "initial_equations": ieqs,
+                                   "delay_arguments": VList([("d",)]), "alias_relation": VObj(VClass("AliasRelation"))})
+    model.cls.attrs["_substitute_delay_arguments"] = _delay_recorder(delay_log)
+
+    def sm(eng, selfobj, symbols, values):
+        meta_log.append(list(eng.iterate(symbols)))
+    sm._pyvc_method = True
+    model.cls.attrs["_substitute_metadata"] = sm
+
+    def symbols_of(eng, selfobj, variables):
+        return VList([v.fields["symbol"] for v in eng.iterate(variables)])
+    symbols_of._pyvc_method = True
+    model.cls.attrs["_symbols"] = symbols_of
+    opts = VDict([(o, o == opt) for o in REPLACE_OPTIONS])
+    eng.exec_fragment(MODEL, "Model._simplify_once", M.block_selector(opt), {"self": model, "options": opts}, label=opt)
+    eng.cover("replace." + opt)
+    left = [v for v in eng.iterate(model.fields["parameters"])] + [v for v in eng.iterate(model.fields["constants"])]
+    gone = [v.fields["symbol"] for v in params + consts if not any(v is l for l in left)]
+    expect_gone = {"replace_parameter_expressions": ["p_expr"], "replace_constant_expressions": ["c_expr"], "replace_parameter_values": ["p_num"],
+                   "replace_constant_values": ["c_num", "c_expr"]}[opt]
+    eng.prove("replace.removes_exactly_the_replaced_parameters_or_constants", z3.BoolVal(sorted(g.nm for g in gone) == sorted(expect_gone)), gone=[g.nm for g in gone])
+
+    def covered(calls_vars):
+        return any(all(any(g is v for v in vars_) for g in gone) for vars_ in calls_vars)
+    eq_calls = [vars_ for exprs, vars_, vals in log.calls if exprs is eqs]
+    ieq_calls = [vars_ for exprs, vars_, vals in log.calls if exprs is ieqs]
+    eng.prove("replace.removed_symbols_substituted_in_equations", z3.BoolVal(covered(eq_calls)))
+    eng.prove("replace.removed_symbols_substituted_in_initial_equations", z3.BoolVal(covered(ieq_calls)))
+    eng.prove("replace.removed_symbols_substituted_in_delay_arguments", z3.BoolVal(covered(delay_log)), option=opt)
+    eng.prove("replace.removed_symbols_substituted_in_metadata", z3.BoolVal(covered(meta_log)))
+
+
 HARNESSES = [("Model._simplify_once#eliminate_constant_assignments/counting", h_constant_counting),
              ("Model._simplify_once#eliminable_variable_expression/counting", h_eliminable_counting),
              ("Model._simplify_once#eliminable_variable_expression/counting with the real extract_assignment", h_eliminable_counting_real),
-             ("Model._simplify_once#detect_aliases/counting", h_alias_counting)]
-EXPECTED_COVER = {"count.const", "count.eliminable", "count.eliminable_real", "count.alias"}
+             ("Model._simplify_once#detect_aliases/counting", h_alias_counting),
+             ("Model._simplify_once#replace_* blocks", h_replace_blocks)]
+EXPECTED_COVER = {"count.const", "count.eliminable", "count.eliminable_real", "count.alias"} | {"replace." + o for o in REPLACE_OPTIONS}
 BOUNDED = True
 LEVEL = "proof"
 TRUSTED = ["pyvc VC generator", "z3 5.1.0", "MX node algebra of contracts/mx_algebra.py", "ca.substitute(exprs, vars, values) removes the substituted symbols from exprs",
